@@ -19,6 +19,7 @@ mod wire;
 mod loop_;
 mod nodeabs;
 mod hll;
+mod hostq;
 
 use common::*;
 use std::path::{Path, PathBuf};
@@ -49,6 +50,7 @@ fn replay_file(comp: &str, path: &Path, out: &mut Out) {
         "loop" => loop_::replay(&desc, &ops, out),
         "nodeabs" => nodeabs::replay(&desc, &ops, out),
         "hll" => hll::replay(&desc, &ops, out),
+        "hostq" => hostq::replay(&desc, &ops, out),
         _ => panic!("unknown component"),
     }
 }
@@ -158,6 +160,7 @@ fn main() {
         "loop" => loop_::run(&args, &mut out),
         "nodeabs" => nodeabs::run(&args, &mut out),
         "hll" => hll::run(&args, &mut out),
+        "hostq" => hostq::run(&args, &mut out),
         _ => {
             eprintln!("unknown component {}", comp);
             std::process::exit(2)
